@@ -23,7 +23,8 @@ RULE = {
            "online-generated histories of engage variants / done / on_disable / execute with scripted in-state "
            "next_state / next_state_now / done and 5 clock patterns; non-trivial = has >=1 unengaged iteration while "
            "running and >=1 of {must_finish continuation, default fallback, next_state_now chain}; distinct = hash of "
-           "(shape, script, concrete op list)",
+           "(shape, script, concrete op list); 30% of the cases of every population use arbitrary ordered parameter subsets, "
+           "diamond hierarchies, a sibling instance of the same class and already-instantiated base classes",
     "C02": "same generator biased to timed chains/cycles, continuous engagement, boundary-exact clock steps (landing on "
            "expiry, +-1us, 1/64 s grid for strict verdicts), long pauses, NT-edited and pre-existing durations; "
            "non-trivial = >=2 timed entries reached by expiry and >=1 exact landing or long pause; distinct as C01",
@@ -35,7 +36,8 @@ RULE = {
            "stop causes and >=1 re-engagement; distinct as C01",
     "C13": "AutonomousStateMachine shapes driven by on_enable / on_iteration / on_disable histories over 1-4 "
            "periods, compared call-by-call with a plain StateMachine twin that is engaged before every iteration, plus "
-           "absolute rules after the end; non-trivial = machine ended (done or expiry) and >=1 post-end iteration or "
+           "absolute rules (nothing after the end, a last timed state never called past first call + duration, argument "
+           "types, first call after on_enable); non-trivial = machine ended (done or expiry) and >=1 post-end iteration or "
            "second period; distinct as C01",
 }
 
